@@ -78,3 +78,9 @@ package datamodeldiagram
 //@   mark @after:sysl.(*Type).GetTuple#1 tup
 //@   mark @after:sysl.(*Type).GetEnum#1 enum
 //@   loop 2 step [every-table-tuple-enum-is-drawn] ghost("lookedup") && (at("rel", callresult) != nil || at("tup", callresult) != nil || at("enum", callresult) != nil) ==> ghost("drawn")
+
+// One diagram per application of an endpoint: every view gets a builder of its own that holds nothing yet, so a
+// diagram never contains what an earlier view of the same endpoint wrote.
+//@ func GenerateDataModel
+//@   maypanic
+//@   assert @call:datamodeldiagram.MakeDataModelView [view-starts-with-an-empty-builder] arg2 != nil && len(arg2.buf) == 0
